@@ -43,6 +43,25 @@ extern "C" {
 #include <stdint.h>
 #include <stdbool.h>
 
+/* Verification hook points for deterministic simulation. When UPIPE_VERIF_SIM
+ * is not defined (the default) UPIPE_VERIF_POINT expands to nothing. When it
+ * is defined, every point calls upipe_verif_point(), provided by a simulation
+ * harness, *before* the access it announces; the harness may switch to
+ * another simulated thread there. */
+#define UPIPE_VERIF_ATOMIC_LOAD     1
+#define UPIPE_VERIF_ATOMIC_STORE    2
+#define UPIPE_VERIF_ATOMIC_CAS      3
+#define UPIPE_VERIF_ATOMIC_ADD      4
+#define UPIPE_VERIF_ATOMIC_SUB      5
+#define UPIPE_VERIF_PLAIN_READ      6
+#define UPIPE_VERIF_PLAIN_WRITE     7
+#ifdef UPIPE_VERIF_SIM
+void upipe_verif_point(int kind, const volatile void *addr);
+#define UPIPE_VERIF_POINT(kind, addr) upipe_verif_point(kind, addr)
+#else
+#define UPIPE_VERIF_POINT(kind, addr) ((void)0)
+#endif
+
 /* TODO: make C11 support interoperable with C++ code
  * e.g. a refcount could be allocated by C11 code then used by C++ code */
 #if 0 && !defined(__cplusplus) && (__STDC_VERSION__ >= 201112L) && !defined(__STDC_NO_ATOMICS__)
@@ -97,6 +116,7 @@ static inline void type##_init(atomictype *obj, ctype value)                \
  */                                                                         \
 static inline void type##_store(atomictype *obj, ctype value)               \
 {                                                                           \
+    UPIPE_VERIF_POINT(UPIPE_VERIF_ATOMIC_STORE, obj);                       \
     __atomic_store(obj, &value, __ATOMIC_SEQ_CST);                          \
 }                                                                           \
 /** @This returns the value of the uatomic variable.                        \
@@ -107,6 +127,7 @@ static inline void type##_store(atomictype *obj, ctype value)               \
 static inline ctype type##_load(atomictype *obj)                            \
 {                                                                           \
     ctype ret;                                                              \
+    UPIPE_VERIF_POINT(UPIPE_VERIF_ATOMIC_LOAD, obj);                        \
     __atomic_load(obj, &ret, __ATOMIC_SEQ_CST);                             \
     return ret;                                                             \
 }                                                                           \
@@ -122,6 +143,7 @@ static inline ctype type##_load(atomictype *obj)                            \
 static inline bool type##_compare_exchange(atomictype *obj,                 \
                                            ctype *expected, ctype desired)  \
 {                                                                           \
+    UPIPE_VERIF_POINT(UPIPE_VERIF_ATOMIC_CAS, obj);                         \
     return __atomic_compare_exchange(obj, expected, &desired, false,        \
                                      __ATOMIC_SEQ_CST, __ATOMIC_SEQ_CST);   \
 }                                                                           \
@@ -145,6 +167,7 @@ UATOMIC_TEMPLATE(uatomic_ptr, void *, uatomic_ptr_t)
 static inline uint32_t uatomic_fetch_add(uatomic_uint32_t *obj,
                                          uint32_t operand)
 {
+    UPIPE_VERIF_POINT(UPIPE_VERIF_ATOMIC_ADD, obj);
     return __atomic_fetch_add(obj, operand, __ATOMIC_SEQ_CST);
 }
 
@@ -157,6 +180,7 @@ static inline uint32_t uatomic_fetch_add(uatomic_uint32_t *obj,
 static inline uint32_t uatomic_fetch_sub(uatomic_uint32_t *obj,
                                          uint32_t operand)
 {
+    UPIPE_VERIF_POINT(UPIPE_VERIF_ATOMIC_SUB, obj);
     return __atomic_fetch_sub(obj, operand, __ATOMIC_SEQ_CST);
 }
 
